@@ -241,6 +241,9 @@ RETCODE adfRenameEntry ( struct AdfVolume * const vol,
             if ( rc != RC_OK )
                 return rc;
             rc = adfAddInCache ( vol, &nParent, &entry );
+            /* a cache block may have been released or allocated on the way */
+            if ( rc == RC_OK )
+                rc = adfUpdateBitmap ( vol );
         }
     }
 /*
